@@ -143,18 +143,42 @@ func Load(patterns []string) (*Loaded, error) {
 		ld.Pkgs[p.PkgPath] = lp
 		ld.Order = append(ld.Order, lp)
 		// contracts: repo file first, else mirror
-		cpath := filepath.Join(repoDir, lp.Rel, "verif_contracts.go")
+		// (verif_contracts.go plus any verif_contracts_*.go next to it)
+		cdir := filepath.Join(repoDir, lp.Rel)
 		src := "repo"
-		if _, err := os.Stat(cpath); err != nil {
-			cpath = filepath.Join(verifDir, "contracts", lp.Rel, "verif_contracts.go")
+		if os.Getenv("GOVC_CONTRACTS") == "mirror" {
+			cdir = ""
+		}
+		if _, err := os.Stat(filepath.Join(cdir, "verif_contracts.go")); err != nil || cdir == "" {
+			cdir = filepath.Join(verifDir, "contracts", lp.Rel)
 			src = "mirror"
 		}
-		if _, err := os.Stat(cpath); err == nil {
+		var cfiles []string
+		if _, err := os.Stat(filepath.Join(cdir, "verif_contracts.go")); err == nil {
+			cfiles = append(cfiles, filepath.Join(cdir, "verif_contracts.go"))
+			more, _ := filepath.Glob(filepath.Join(cdir, "verif_contracts_*.go"))
+			sort.Strings(more)
+			cfiles = append(cfiles, more...)
+		}
+		for _, cpath := range cfiles {
 			cf, err := ParseContractFile(cpath, src)
 			if err != nil {
 				return nil, err
 			}
-			lp.CF = cf
+			if lp.CF == nil {
+				lp.CF = cf
+			} else {
+				lp.CF.Imports = append(lp.CF.Imports, cf.Imports...)
+				lp.CF.Spec += "\n" + cf.Spec
+				lp.CF.Funcs = append(lp.CF.Funcs, cf.Funcs...)
+				lp.CF.Lemmas = append(lp.CF.Lemmas, cf.Lemmas...)
+				for k := range cf.Options {
+					if lp.CF.Options == nil {
+						lp.CF.Options = map[string]bool{}
+					}
+					lp.CF.Options[k] = true
+				}
+			}
 		}
 		stubSrc, err := ld.genStub(lp)
 		if err != nil {
